@@ -45,7 +45,8 @@ def install_invariant():
         setattr(cls, name, wrapper)
 
     for name in ('__init__', 'append', '__iadd__', 'indent', 'trim'):
-        wrap(name)
+        if name in vars(cls):      # a method the class does not define itself is not hooked
+            wrap(name)
 
 
 # ---------------------------------------------------------------------------------------------
